@@ -806,5 +806,10 @@ def replay(ck: core.Check, doc) -> bool:
         print("build succeeded; imports, node validity, checker, runtime and results all as required")
         return False
     print(f"{v[0]}: {v[1]}")
-    print("key:", classify(v[0], case["prog"], v[1]))
+    key = classify(v[0], case["prog"], v[1])
+    print("key:", key)
+    listed = {f["key"] for f in core.load_findings() if f["property"] == "C09" and f.get("status") == "known"}
+    if key in listed and key != doc.get("key"):
+        print(f"this input only exhibits the listed known finding {key} (not the failure recorded in this replay)")
+        return False
     return True
